@@ -9,6 +9,7 @@ of the job from a plan file and behaves accordingly:
     S      write the return file, exit 0            F<c>   exit c
     W<c>   write the return file, then exit c       N<n>,<c>  like S from the n-th attempt on, exit c before
     K<s>   write the return file, then die by signal s (kill -s $$)
+    U<n>,<c>  like S before the n-th attempt, exit c from it on
     O      exit 0 without writing the return file
 The returned file holds `<job>:<tag>:<attempt>`; post-processing stores `<tag>|<payloads>` in the result's attrib.
 """
@@ -39,7 +40,8 @@ def main():
         pay = f"printf '%s' {shlex.quote(job + ':' + tag + ':')}$n > r.txt"
         return (f"n=$(cat {c} 2>/dev/null || echo 0); n=$((n+1)); echo $n > {c}; plan=$(cat {p} 2>/dev/null || echo S); "
                 f"case $plan in S) {pay}; exit 0;; F*) exit ${{plan#F}};; W*) {pay}; exit ${{plan#W}};; K*) {pay}; ulimit -c 0; kill -${{plan#K}} $$; sleep 5;; "
-                f"N*) a=${{plan#N}}; if [ $n -ge ${{a%,*}} ]; then {pay}; exit 0; else exit ${{a#*,}}; fi;; O) exit 0;; esac; exit 99")
+                f"N*) a=${{plan#N}}; if [ $n -ge ${{a%,*}} ]; then {pay}; exit 0; else exit ${{a#*,}}; fi;; "
+                f"U*) a=${{plan#U}}; if [ $n -lt ${{a%,*}} ]; then {pay}; exit 0; else exit ${{a#*,}}; fi;; O) exit 0;; esac; exit 99")
 
     def molecule(key):
         m = ml.Molecule(["C", "O"], name=key)
@@ -128,7 +130,7 @@ def main():
         out = {}
         odir = work / "cache" / "output"
         if odir.is_dir():
-            for p in sorted(odir.glob("*.out")):
+            for p in sorted(q for q in odir.iterdir() if q.name.endswith(".out")):   # (glob would skip names with a leading dot)
                 try:
                     o = JobOutput.load(p)
                     f = (o.files or {}).get("r.txt")
